@@ -852,16 +852,32 @@ fn file_text(case: &IncCase, i: usize) -> String {
     s
 }
 
-pub fn inc_impl(case: &IncCase) -> (S, bool) {
+/// `spelling`: how the root file's path is spelled — 0: the canonical absolute path; 1: with a `.` component
+/// (`<dir>/real/./f0.fea`); 2: through a symlinked directory (`<dir>/link -> real`). The include graph and every
+/// expected result are the same; only the relation between a file's resolved path and its canonical path differs
+/// (the loader identifies files by canonical path).
+pub fn inc_impl(case: &IncCase, spelling: usize) -> (S, bool) {
     let dir = match tempfile::Builder::new().prefix("c13inc").tempdir() {
         Ok(d) => d,
         Err(_) => return (S::kv("impl", [S::k1("status", S::atom("tmpdir-failed"))]), false),
     };
     let n = case.edges.len();
+    let real = dir.path().canonicalize().unwrap_or(dir.path().to_path_buf()).join("real");
+    std::fs::create_dir_all(&real).unwrap();
     for i in 0..n {
-        std::fs::write(dir.path().join(file_name(i)), file_text(case, i)).unwrap();
+        std::fs::write(real.join(file_name(i)), file_text(case, i)).unwrap();
     }
-    let root = dir.path().join(file_name(0));
+    let root = match spelling {
+        1 => real.join(".").join(file_name(0)),
+        2 => {
+            let link = real.parent().unwrap().join("link");
+            match std::os::unix::fs::symlink(&real, &link) {
+                Ok(()) => link.join(file_name(0)),
+                Err(_) => real.join(file_name(0)),
+            }
+        }
+        _ => real.join(file_name(0)),
+    };
     let out = guarded(CASE_TIMEOUT_S, move || {
         match parse_root_file(root, None, None) {
             Err(_) => vec![S::k1("result", S::atom("loaderr"))],
@@ -907,7 +923,7 @@ pub fn run_inc(args: &Args) {
             }
             S::list(v)
         });
-        let (imp, hung) = if known_hang { (S::kv("impl", [S::k1("status", S::atom("hang"))]), true) } else { inc_impl(&case) };
+        let (imp, hung) = if known_hang { (S::kv("impl", [S::k1("status", S::atom("hang"))]), true) } else { inc_impl(&case, i % 3) };
         (vec![
             S::k1("shape", S::atom(case.shape)),
             S::k1("n", S::usize(case.edges.len())),
